@@ -288,13 +288,14 @@ fn gen_case(rng: &mut Rng) -> Case {
     let ndefs = if rng.chance(1, 2) { rng.range(1, 3) } else { 0 };
     let names: Vec<String> = (0..ndefs).map(|i| format!("D{}", i)).collect();
     let mut defs = vec![];
+    let any_ref = rng.chance(1, 4);
     for (i, n) in names.iter().enumerate() {
-        // mostly acyclic (refer to later names); sometimes a pure reference cycle
-        let later: Vec<String> = names[i + 1..].to_vec();
-        // (a cycle that passes through allOf/anyOf/oneOf would make the real
-        // type_is_scalar recurse without bound - a stack overflow that aborts
-        // the process; only bare-reference cycles, which type_resolve detects,
-        // are generated)
+        // mostly acyclic (refer to later names); sometimes a pure reference
+        // cycle (type_resolve panics); one table in four lets definitions
+        // refer to any definition, themselves included, so that types contain
+        // themselves through allOf/anyOf/oneOf (refused as non-scalar since
+        // fix 97a0ad7; before it the real type_is_scalar overflowed the stack)
+        let later: Vec<String> = if any_ref { names.clone() } else { names[i + 1..].to_vec() };
         let p = if rng.chance(1, 12) {
             Ps::Ref(n.clone())
         } else {
